@@ -28,6 +28,7 @@ GroupFailing(ev) ==
     LET Gp == ev.g.polys
         pts == ev.g.list
     IN  (IF ev.inside = [i \in DOMAIN pts |-> B(InGroup(Gp, pts[i]))] THEN {} ELSE {<<"inside">>})
+        \cup (IF ev.inside1 = ev.inside THEN {} ELSE {<<"inside_depends_on_buffer_content">>})
         \cup (IF ev.all = AllInside(Gp, pts) THEN {} ELSE {<<"all_inside">>})
         \cup (IF ev.any = AnyInside(Gp, pts) THEN {} ELSE {<<"any_inside">>})
         \cup (IF \A i \in DOMAIN Gp : ev.call[i] = ContainAll(Gp[i], pts) THEN {} ELSE {<<"contain_all">>})
